@@ -16,7 +16,13 @@ static NEXT_STREAM: std::sync::atomic::AtomicU64 = std::sync::atomic::AtomicU64:
 
 fn stream_seed() -> u64 {
     let k = NEXT_STREAM.fetch_add(1, std::sync::atomic::Ordering::Relaxed);
-    42u64.wrapping_add(k.wrapping_mul(0x9E37_79B9_7F4A_7C15))
+    // The counter is scrambled (splitmix64 finaliser; 0 stays 0): the generator is affine, so equally spaced seeds
+    // would stay equally spaced at every draw and the j-th priorities of consecutive threads would form an
+    // arithmetic progression - laid side by side they build a treap several times deeper than the bound.
+    let mut z = k.wrapping_mul(0x9E37_79B9_7F4A_7C15);
+    z = (z ^ (z >> 30)).wrapping_mul(0xBF58_476D_1CE4_E5B9);
+    z = (z ^ (z >> 27)).wrapping_mul(0x94D0_49BB_1331_11EB);
+    42u64.wrapping_add(z ^ (z >> 31))
 }
 
 thread_local! {
